@@ -227,3 +227,9 @@ class C19(Prop):
 
 
 PROP = C19()
+
+MANIFEST = dict(
+    technique="Lean 4 proof: polynomial cost bound for every `safe` regex (induction on the expression and on fuel) + decide on the regenerated pattern list; engine model validated differentially against CPython re; wall-clock oracle on pump families",
+    text="Theorem C19_cost: for every regex meeting the decidable criterion `safe`, the no-memoisation backtracking cost on ANY input is at most coef*(|s|+1)^deg; C19_here/C19_degrees (decide on the file regenerated from the source on every run): every pattern the library matches is safe with degree <= 6. A pattern that becomes ambiguous breaks the decide; the check then times the real validators on pump families built from the pattern and reports the stalling string.",
+    note="Modelled, not verified: CPython's sre (cost model = list-of-successes backtracking, an upper-envelope assumption; acceptance and captures compared with re on every run). Non-regex costs (quadratic identity scan in Images.add) are outside the Lean claim.",
+    ref="7/C19")
